@@ -2,7 +2,205 @@
 
 package history
 
+// Contracts for the verifier in /verif (comment-only; see /verif/DESIGN.md).
+
 /*@
-func MembershipProof.Verify
+typeinv leafHashOp by newLeafHashOp: self.pos != nil
+typeinv innerHashOp by newInnerHashOp: self.pos != nil && !isnil(self.Left) && !isnil(self.Right)
+typeinv partialInnerHashOp by newPartialInnerHashOp: self.pos != nil && !isnil(self.Left)
+typeinv getCacheOp by newGetCacheOp: self.pos != nil
+typeinv putCacheOp by newPutCacheOp: !isnil(self.operation)
+typeinv mutateOp by newMutateOp: !isnil(self.operation)
+typeinv collectOp by newCollectOp: !isnil(self.operation)
+typeinv computeHashVisitor by newComputeHashVisitor: !isnil(self.hasher) && !isnil(self.cache)
+
+// ---- positions --------------------------------------------------------------
+
+func newPosition
+  props C01 C02 C03 C04 C12
+  ensures result != nil && fresh(result)
+  ensures result.Index == index && result.Height == height
+
+func newRootPosition
+  props C01 C02 C03 C04 C12
+  ensures result != nil && fresh(result)
+  ensures result.Index == 0 && result.Height <= 64
+  ensures result.Height == 64 || version < (uint64(1) << uint64(result.Height))
+  ensures result.Height == 0 || version >= (uint64(1) << uint64(result.Height - 1))
+
+func position.IsLeaf
+  props C01 C02 C03 C04 C12
+  ensures result == (p.Height == 0)
+
+func position.Left
+  props C01 C02 C03 C04 C12
+  ensures p.Height == 0 ==> result == nil
+  ensures p.Height != 0 ==> result != nil && fresh(result) && result.Index == p.Index && result.Height == p.Height - 1
+
+func position.Right
+  props C01 C02 C03 C04 C12
+  ensures p.Height == 0 ==> result == nil
+  ensures p.Height != 0 ==> result != nil && fresh(result) && result.Height == p.Height - 1
+  ensures p.Height != 0 ==> result.Index == p.Index + (uint64(1) << uint64(p.Height - 1))
+
+func position.Bytes
+  props C01 C02 C03 C04 C12
+  ensures len(result) == 10 && fresh(result)
+
+// ---- operations -------------------------------------------------------------
+
+func newLeafHashOp
+  props C01 C02 C12
+  requires pos != nil
+  ensures result != nil && fresh(result) && result.pos == pos
+
+func newInnerHashOp
+  props C01 C02 C03 C12
+  requires pos != nil && !isnil(left) && !isnil(right)
+  ensures result != nil && fresh(result) && result.pos == pos && result.Left == left && result.Right == right
+
+func newPartialInnerHashOp
+  props C01 C02 C03 C12
+  requires pos != nil && !isnil(left)
+  ensures result != nil && fresh(result) && result.pos == pos && result.Left == left
+
+func newGetCacheOp
+  props C01 C02 C03 C12
+  requires pos != nil
+  ensures result != nil && fresh(result) && result.pos == pos
+
+func operation.Accept
+  requires !isnil(visitor)
+  modifies everything
+  may_panic
+
+func operation.Position
+  ensures result != nil
+
+func leafHashOp.Accept
   props C12
+  requires !isnil(visitor)
+  modifies everything
+  may_panic
+func innerHashOp.Accept
+  props C12
+  requires !isnil(visitor)
+  modifies everything
+  may_panic
+func partialInnerHashOp.Accept
+  props C12
+  requires !isnil(visitor)
+  modifies everything
+  may_panic
+func getCacheOp.Accept
+  props C12
+  requires !isnil(visitor)
+  modifies everything
+  may_panic
+func leafHashOp.Position
+  props C12
+  ensures result != nil
+func innerHashOp.Position
+  props C12
+  ensures result != nil
+func partialInnerHashOp.Position
+  props C12
+  ensures result != nil
+func getCacheOp.Position
+  props C12
+  ensures result != nil
+
+func opVisitor.VisitLeafHashOp
+  modifies everything
+  may_panic
+func opVisitor.VisitInnerHashOp
+  modifies everything
+  may_panic
+func opVisitor.VisitPartialInnerHashOp
+  modifies everything
+  may_panic
+func opVisitor.VisitGetCacheOp
+  modifies everything
+  may_panic
+func opVisitor.VisitPutCacheOp
+  modifies everything
+  may_panic
+func opVisitor.VisitMutateOp
+  modifies everything
+  may_panic
+func opVisitor.VisitCollectOp
+  modifies everything
+  may_panic
+
+// ---- the client-side (verifying) visitor ------------------------------------
+
+func newComputeHashVisitor
+  props C12
+  requires !isnil(hasher) && !isnil(cache)
+  ensures result != nil && fresh(result) && result.hasher == hasher && result.cache == cache
+
+func computeHashVisitor.VisitLeafHashOp
+  props C12
+  modifies everything
+  may_panic
+func computeHashVisitor.VisitInnerHashOp
+  props C12
+  modifies everything
+  may_panic
+func computeHashVisitor.VisitPartialInnerHashOp
+  props C12
+  modifies everything
+  may_panic
+func computeHashVisitor.VisitGetCacheOp
+  props C12
+  modifies everything
+  may_panic
+
+// ---- pruning for verification (recursion on pos.Height terminates) ------------
+
+func pruneToVerify
+  props C02 C12
+  ensures !isnil(result)
+func pruneToVerify.traverse
+  props C02 C12
+  requires pos != nil
+  decreases pos.Height
+  ensures !isnil(result)
+
+func pruneToVerifyIncrementalStart
+  props C03 C12
+  ensures !isnil(result)
+func pruneToVerifyIncrementalStart.traverse
+  props C03 C12
+  requires pos != nil
+  decreases pos.Height
+  ensures !isnil(result)
+
+func pruneToVerifyIncrementalEnd
+  props C03 C12
+  ensures !isnil(result)
+func pruneToVerifyIncrementalEnd.traverse
+  props C03 C12
+  requires pos != nil
+  decreases pos.Height
+  ensures !isnil(result)
+
+// ---- proofs -----------------------------------------------------------------
+
+func AuditPath.Get
+  props C12
+
+func ParseAuditPath
+  props C12 C13
+  ensures result != nil
+
+func MembershipProof.Verify
+  props C02 C12
+  requires !isnil(p.hasher)
+  modifies everything
+
+func IncrementalProof.Verify
+  props C03 C12
+  requires !isnil(p.hasher)
+  modifies everything
 @*/
